@@ -53,9 +53,9 @@ def main():
       want = min(max(math.sqrt(ev), lo), hi)
       if ev == 0:
         out['constant_columns'] += 1
-        if not (lo <= std[f] <= lo + 2e-3 * mag):
+        if not (lo <= std[f] <= lo + 2e-3 * mag + 8 * 1.2e-7 * mag * mag / max(lo, 1e-3 * mag)):
           bad.append(f'constant column: std[{f}] {std[f]} not within rounding of the minimum {lo}')
-      elif abs(std[f] - want) > 2e-3 * (want + mag * 1e-2):
+      elif abs(std[f] - want) > 2e-3 * want + 8 * 1.2e-7 * mag * mag / max(want, 1e-3 * mag):   # float32 cancellation at offset c
         bad.append(f'std[{f}] {std[f]} != {want}')
     if bad:
       out['violations'].append({'what': '; '.join(bad[:3]), 'a': a, 'c': c,
